@@ -123,25 +123,61 @@ struct atomic {
   atomic& operator=(const atomic&) = delete;
   static constexpr bool is_always_lock_free = std::atomic<T>::is_always_lock_free;
   bool is_lock_free() const noexcept { return v_.is_lock_free(); }
+  // store-buffer mode (vmcrt::tso_active()): while another thread's store to this object is still buffered, everybody
+  // else reads, and orders its own writes before, the value that was visible before it (the "shadow")
+  static constexpr bool tso_ok = sizeof(T) <= 8 && std::is_trivially_copyable<T>::value;
+  static T frombits(uint64_t b) noexcept { T r; std::memcpy(&r, &b, sizeof(T) < 8 ? sizeof(T) : 8); return r; }
+  uint64_t* shadow_() const noexcept {
+    if (!tso_ok || !vmcrt::tso_active()) return nullptr;
+    return vmcrt::tso_shadow(this, tohash(v_.load(std::memory_order_relaxed)));
+  }
   T load(std::memory_order o = std::memory_order_seq_cst) const noexcept {
     vmcrt::point(this, vmcrt::K_LOAD);
+    if (uint64_t* sh = shadow_()) {
+      T r = frombits(*sh);
+      vmcrt::observed_shadow(this, vmcrt::K_LOAD, tohash(r), false);
+      return r;
+    }
     T r = v_.load(o);
     vmcrt::observed(this, vmcrt::K_LOAD, tohash(r), false);
     return r;
   }
   void store(T t, std::memory_order o = std::memory_order_seq_cst) noexcept {
     vmcrt::point(this, vmcrt::K_STORE);
+    if (tso_ok && vmcrt::tso_active()) {
+      if (uint64_t* sh = shadow_()) {
+        // ordered before the other thread's buffered store in modification order: visible now, overwritten when it drains
+        vmcrt::tso_drain_self();
+        *sh = tohash(t);
+        vmcrt::observed_shadow(this, vmcrt::K_STORE, tohash(t), true);
+        return;
+      }
+      if (o == std::memory_order_seq_cst) vmcrt::tso_drain_self();
+      else vmcrt::tso_store(this, tohash(v_.load(std::memory_order_relaxed)), tohash(t));
+    }
     v_.store(t, o);
     vmcrt::observed(this, vmcrt::K_STORE, tohash(t), true);
   }
   T exchange(T t, std::memory_order o = std::memory_order_seq_cst) noexcept {
     vmcrt::point(this, vmcrt::K_RMW);
+    if (uint64_t* sh = shadow_()) {
+      T r = frombits(*sh);
+      *sh = tohash(t);
+      vmcrt::observed_shadow(this, vmcrt::K_RMW, tohash(r), tohash(r) != tohash(t));
+      return r;
+    }
     T r = v_.exchange(t, o);
     vmcrt::observed(this, vmcrt::K_RMW, tohash(r), tohash(r) != tohash(t));
     return r;
   }
   bool cas_(T& e, T d, std::memory_order s, std::memory_order f) noexcept {
     vmcrt::point(this, vmcrt::K_RMW);
+    if (uint64_t* sh = shadow_()) {
+      bool ok = *sh == tohash(e);
+      if (ok) *sh = tohash(d); else e = frombits(*sh);
+      vmcrt::observed_shadow(this, vmcrt::K_RMW, tohash(e) * 2 + (ok ? 1 : 0), ok);
+      return ok;
+    }
     bool ok = v_.compare_exchange_strong(e, d, s, f);
     vmcrt::observed(this, vmcrt::K_RMW, tohash(e) * 2 + (ok ? 1 : 0), ok);
     return ok;
@@ -153,19 +189,25 @@ struct atomic {
   bool compare_exchange_strong(T& e, T d, std::memory_order o = std::memory_order_seq_cst) noexcept { return cas_(e, d, o, fo_(o)); }
   bool compare_exchange_weak(T& e, T d, std::memory_order s, std::memory_order f) noexcept { return cas_(e, d, s, f); }
   bool compare_exchange_weak(T& e, T d, std::memory_order o = std::memory_order_seq_cst) noexcept { return cas_(e, d, o, fo_(o)); }
-#define VMC_FETCH(NAME, CHANGED)                                                         \
+#define VMC_FETCH(NAME, CHANGED, NEWVAL)                                                 \
   template <class U = T>                                                                 \
   auto NAME(U x, std::memory_order o = std::memory_order_seq_cst) noexcept {             \
     vmcrt::point(this, vmcrt::K_RMW);                                                    \
-    auto r = v_.NAME(x, o);                                                              \
+    if (uint64_t* sh = shadow_()) {                                                      \
+      T r = frombits(*sh);                                                               \
+      *sh = tohash(T(NEWVAL));                                                           \
+      vmcrt::observed_shadow(this, vmcrt::K_RMW, tohash(r), CHANGED);                    \
+      return r;                                                                          \
+    }                                                                                    \
+    T r = v_.NAME(x, o);                                                                 \
     vmcrt::observed(this, vmcrt::K_RMW, tohash(r), CHANGED);                             \
     return r;                                                                            \
   }
-  VMC_FETCH(fetch_add, x != U{})
-  VMC_FETCH(fetch_sub, x != U{})
-  VMC_FETCH(fetch_or, T(r | x) != r)
-  VMC_FETCH(fetch_and, T(r & x) != r)
-  VMC_FETCH(fetch_xor, x != U{})
+  VMC_FETCH(fetch_add, x != U{}, r + x)
+  VMC_FETCH(fetch_sub, x != U{}, r - x)
+  VMC_FETCH(fetch_or, T(r | x) != r, r | x)
+  VMC_FETCH(fetch_and, T(r & x) != r, r & x)
+  VMC_FETCH(fetch_xor, x != U{}, r ^ x)
 #undef VMC_FETCH
   operator T() const noexcept { return load(); }
   T operator=(T t) noexcept { store(t); return t; }
@@ -181,6 +223,7 @@ struct atomic {
 
 inline void fence(std::memory_order o) noexcept {
   vmcrt::point(nullptr, vmcrt::K_FENCE);
+  if (o == std::memory_order_seq_cst) vmcrt::tso_drain_self();
   std::atomic_thread_fence(o);
   vmcrt::observed(nullptr, vmcrt::K_FENCE, (uint64_t)o, false);
 }
